@@ -438,11 +438,11 @@ pub fn parse_unix_filename(s: &str) -> &str {
 }
 
 pub fn has_extension(file_name: &str, extensions: &Vec<String>) -> bool {
-    let s = file_name.to_ascii_lowercase();
+    let s = file_name.to_lowercase();
 
     // letter case counts on neither side, however the extension is spelt in the configuration
     for ext in extensions {
-        if s.ends_with(&ext.to_ascii_lowercase()) {
+        if s.ends_with(&ext.to_lowercase()) {
             return true;
         }
     }
